@@ -338,6 +338,13 @@ def load_and_dump(case: Dict[str, Any], root: str, r: random.Random) -> Dict[str
     record("experiment", e_experiment)
     # monitoring only: in which order this child's file-system shim answered the listings of `streams` directories
     res["_info"] = json.loads(_scrub(json.dumps({"stream_listings": list(STREAM_LOG)}), subs))
+    if case["kind"] == "flowir":
+        # monitoring only (no repository code involved): the order in which a SET of (stage, name) identifiers, filled
+        # in document order, lists the stages in THIS process - it varies with the string hash function
+        ids = set()
+        for comp in case["doc"]["components"]:
+            ids.add((comp["stage"], comp["name"]))
+        res["_info"]["stage_order_of_an_identifier_set"] = list(dict.fromkeys(st for st, _ in ids))
     del STREAM_LOG[:]
     if not os.environ.get("VERIF_KEEP_TMP"):
         shutil.rmtree(m["pkg"], ignore_errors=True)
